@@ -5,6 +5,7 @@ import json, os, re, sys
 M = sys.argv[1]
 lo, hi = (int(sys.argv[2]), int(sys.argv[3])) if len(sys.argv) > 3 else (1, 99)
 DESC = {
+ 'C01-16': '`html_escape` memo keyed by the text only (attr flag not in the key)', 'C01-17': '`__setitem__` drops an empty class/style (render-time copy goes through it)', 'C01-18': 'void-ness looked up once in `Tag.__init__` (stale after rename; two sites)', 'C01-19': 'children filtered with `item not in (None, False)`: 0 dropped', 'C02-16': "`_normalize_text` verbatim memo conflates `HTML('x')` and `'x'`", 'C02-17': 'escape decision frozen in `Tag.__init__` (stale after rename)', 'C02-18': '`_tagchilds_to_tagnodes` drops zero with the False filter', 'C02-19': 'one shared `html_escape` cache for text and attribute mode (local alias of a module dict)', 'C03-16': '`x in (None, False)` drops 0 / 0.0', 'C03-17': '`html_escape` replaces only the characters found, in `sorted()` order (`"` before `&`)', 'C03-18': 'merge test `type(prev) is not type(new)` (str subclass)', 'C03-19': 'attribute writer: one flag for the whole tag after the first `HTML()` value', 'C04-16': 'new `HTML.__iadd__` grows the left operand in place', 'C04-17': '`_normalize_text` memo conflates `HTML` with `str` (module dict)', 'C04-18': "`update`: 'any HTML() value?' decided before kwargs are folded in", 'C04-19': '`HTMLTextDocument.render` splices with `re.sub` (replacement template)', 'C05-16': "`_repr_html_` branch keeps the previous sibling's state", 'C05-17': "block-inside-inline 'layout fix' in `Tag.get_html_string` (child's flag read as the frame's)", 'C05-18': '`as_html_tags` rebuilds head tags without their whitespace flag', 'C05-19': "`_hoist_head_content` sets `add_ws=True` on the dependency's own tags (aliasing)", 'C06-16': "`eol = eol or '\\n'` swallows `eol=''`", 'C06-17': 'first sibling decided by `child is not nodes[0]` (same object twice)', 'C06-18': '`Tag.extend(list(x))` iterates a bare string', 'C06-19': '`TagList.tagify` splices everything that is not a Tag/metadata node (`HTML` per character)', 'C07-16': 'void test runs before `children` is rebound to the filtered list', 'C07-17': 'forward tagify loop writes the metadata copy at a stale index', 'C07-18': '`HTMLDependency` gains `_repr_html_` (display hook overlap)', 'C07-19': '`insert` node by node at `start + offset` (negative index crosses 0)', 'C08-16': '`Tag.__copy__`: `copy(value) if value else value` shares empty containers', 'C08-17': '`source_path_map` caches on the instance (`cached_property`)', 'C08-18': '`TagList.tagify` iterates forwards while splicing', 'C08-19': '`HTMLDependency.head` class-level default + simplified `__eq__` tail', 'C09-16': 'splice test widened to `Sequence`: `HTML()` exploded per character', 'C09-17': "html attributes written before `tagify()` into the expansion's own tag", 'C09-18': 'un-expanded object alone in `<script>` emitted by the single-child fast path', 'C09-19': '`Tag.tagify` keeps un-expanded children when the expansion is empty (`if children:`)', 'C10-16': '`max(dep, map.get(name, dep), key=...)`: ties go to the later object', 'C10-17': 'direct dependencies collected before those of sibling tags', 'C10-18': '`if source:` skips validation of falsy sources', 'C10-19': 'metadata nodes ignored when choosing the root `<html>`/`<body>` (their dependencies are lost)', 'C11-16': '`Tag.__copy__` skips `copy()` for falsy fields (attrs leak between documents)', 'C11-17': '`HTMLDocument.__init__` adopts a lone `TagList` argument', 'C11-18': '`x in (None, False)` drops a zero html attribute', 'C11-19': 'sole-content test reads `len(self._content)` but takes `content[0]`', 'C12-16': 'source directory memoised in a module dict keyed by `subdir` only', 'C12-17': '`quote(unquote(path))` in `as_dict`', 'C12-18': '`target_dir` rebound inside the copy loop', 'C12-19': '`save_html` skips `copy_to` for dependencies without script/stylesheet', 'C13-16': 'dependency head serialised with `str()` (json mode appends nested dependencies)', 'C13-17': 'duplicates dropped by `dep not in deps` (object equality)', 'C13-18': '`_deps` class-level default list shared by all documents', 'C13-19': '`replace(..., 1)` rewritten with `str.partition` (placeholder absent)', 'C14-16': '`_flatten_recurse` recursion guard remembers containers forever', 'C14-17': 'module-level cache of number text keyed by the number (`1 == 1.0 == True`)', 'C14-18': '`insert` node by node at `start + offset`', 'C14-19': '`Tag.append` forwards its arguments one at a time (partial append before TypeError)', 'C15-16': '`prev = attrz.get(nm); if prev:` (empty previous value not joined)', 'C15-17': '`x in (None, False)` drops zero', 'C15-18': '`TagAttrDict.__init__` fast path for a lone dict forgets the keywords', 'C15-19': '`consolidate_attrs` returns one shared dict for attribute-less calls', 'C16-16': '`css()` built from a generator: never `None`', 'C16-17': '`remove_class` by padded `str.replace` misses adjacent repeats', 'C16-18': '`has_class` builds a regular expression from the token', 'C16-19': "`add_style` guard `style and not style.endswith(';')` accepts ''", 'C17-16': '`__enter__` swaps hooks with tuple assignment before the re-entry check', 'C17-17': '`isinstance(value, str)` fast path in front of the `_repr_html_` test', 'C17-18': '`_tagchilds_to_tagnodes` became a generator (partial append before TypeError)', 'C17-19': 'restore `self.prev_displayhook or sys.__displayhook__` (falsy callable)', 'C18-16': '`head_content` lone-text fast path hashes the unescaped text', 'C18-17': 'script items rebuilt through a keys-view difference (set order)', 'C18-18': '`_normalize_attr_value` memoised with `lru_cache`', 'C18-19': '`HTMLTextDocument._deps` class-level default', 'C19-16': 'bare-tag fast path returns before the `_add_ws` type check', 'C19-17': '`globals()` loop wraps obsolete tag functions (wrapper loses the element name)', 'C19-18': '`lru_cache` on `_normalize_attr_value`', 'C19-19': '`_flatten_recurse` fast path extends with a `TagList` item un-normalised', 'C20-16': 'scalar serialiser memoised with `lru_cache` (True vs 1.0)', 'C20-17': 'metadata nodes de-duplicated by name, last wins', 'C20-18': 'list-valued props walked in place through a list shared with the original', 'C20-19': 'positional dict props merged after the allow-list check',
  'C01-12': 'comma lost in the void table (`sourcetrack`)', 'C01-13': 'CR escaped as `&#10;` in the attribute table', 'C01-14': '`copy` dropped in `HTMLDocument.__copy__`', 'C01-15': 'void test reads `self.children` (unfiltered)', 'C02-12': '`html_escape` slow path always uses the attribute table', 'C02-13': 'numbers stored with `repr()`', 'C02-14': '`+=` uses `super().extend`', 'C02-15': 'display hook drops falsy values (`value and ...`)', 'C03-12': 'CR escaped as `&#10;`', 'C03-13': '`attr=True` lost in one merge branch', 'C03-14': '`x in (None, False)` drops zero', 'C03-15': '`__setitem__` stores the raw value', 'C04-12': '`html_escape` default flipped to `attr=True`', 'C04-13': 'no-escape fast path prints `self.children[0]`', 'C04-14': 'plain value merged after `HTML()` escaped with text rules', 'C04-15': 'display hook drops the `HTML()` wrap', 'C05-12': 'state reset lost after a `_repr_html_` child', 'C05-13': '`wbr` dropped from the inline table (script and tags.py)', 'C05-14': 'void test reads `self.children`', 'C05-15': '`svg.a` does not forward `_add_ws`', 'C06-12': '`TagList.get_html_string` default `add_ws=False`', 'C06-13': 'one-line rule reads `self.children[0]`', 'C06-14': '`tags.wbr` default flipped', 'C06-15': 'LF entry dropped from the attribute escape table', 'C07-12': 'void test reads `self.children`', 'C07-13': 'JSX renderer skips only `HTMLDependency`', 'C07-14': 'extraction pattern lost its final `>`', 'C07-15': '`_equals_impl` returns True for different classes', 'C08-12': '`JSXTag.__copy__` updates from `self.__dict__`', 'C08-13': '`Tag.render` collects dependencies from `self`', 'C08-14': '`copy_to` clears the target only `if isfile`', 'C08-15': 'JSX visitor copies only non-metadata values', 'C09-12': '`TagList.tagify`: `cp = self`', 'C09-13': '`Tag.render`: dependencies from `self`', 'C09-14': 'document case test reads `len(self._content)`', 'C09-15': '`raise` keyword lost before `RuntimeError(...)`', 'C10-12': '`>=` on version ties', 'C10-13': '`if source:` skips validation of falsy sources', 'C10-14': '`dedup` not forwarded by `Tag.get_dependencies`', 'C10-15': '`TagList.render`: dependencies from `self`', 'C11-12': 'lone-`<body>` test `len(content) >= 1`', 'C11-13': 'link tags before meta tags', 'C11-14': '`TagList.tagify`: `cp = self`', 'C11-15': 'void test reads `self.children`', 'C12-12': 'stale target cleared only `if isfile`', 'C12-13': '`Tag.save_html` lost its `return`', 'C12-14': "`quote(src, safe='/%')` for scripts", 'C12-15': '`Tag.render` collects with `dedup=False`', 'C13-12': 'only lower-case `</s` neutralised', 'C13-13': '`break` for `continue` on a repeated serialisation', 'C13-14': '`replace` lost its count', 'C13-15': 'json mode serialises `x.get_dependencies()`', 'C14-12': '`+=` extends `self.data` directly', 'C14-13': '`int` dropped from `is_tag_child`', 'C14-14': '`TagList.tagify`: `cp = self`', 'C14-15': '`JSXTag.extend` calls `append(*x)`', 'C15-12': '`__setitem__` stores under the raw name', 'C15-13': '`x in (None, False)` drops zero', 'C15-14': 'merge test `if attrz.get(nm)`', 'C15-15': '`consolidate_attrs` filters with `type(x) is not dict`', 'C16-12': '`css` drops falsy values', 'C16-13': '`remove_class` filters by substring', 'C16-14': '`add_style` guard checks `str` only', 'C16-15': "`has_class` splits on `' '`", 'C17-12': 'Ellipsis no longer ignored', 'C17-13': 'normaliser tests `is_tag_child`', 'C17-14': 'hand-over before the saved hook is cleared', 'C17-15': 're-entry guard by truthiness', 'C18-12': '`JSXTag.__copy__` without `copy`', 'C18-13': '`HTMLTextDocument(deps=[])` mutable default', 'C18-14': "digest of `encode('ascii', 'ignore')`", 'C18-15': '`TagList.get_dependencies` default `dedup=False`', 'C19-12': 'falsy non-bool `_add_ws` accepted', 'C19-13': '`template` default flipped', 'C19-14': '`feFuncB` creates `feFuncG`', 'C19-15': '`source` drops `*args`', 'C20-12': 'quote escaping became a no-op', 'C20-13': '`JSXTagAttrDict.__setitem__` stores under the raw name', 'C20-14': 'prop values not walked recursively', 'C20-15': '`JSXTag.__copy__` without `copy`',
  "C01-8": "void-ness cached at construction (stale after `.name` is reassigned)", "C01-9": "`html_escape` leaves numeric character references alone",
  "C01-10": "void table re-packed with one comma lost (`trackwbr`)", "C01-11": "`HTMLDocument` rebuilds `<head>` and drops its attributes",
